@@ -647,6 +647,30 @@ def mutating_probes():
     calc("Node.from_dict", lambda w: [n for n in _nodes(w) if not n._children][0].from_dict(
         [{"data": _fresh(w, "s:f1"), "children": [{"data": _fresh(w, "s:f2")}, {"data": _fresh(w, "s:f3")}]},
          {"data": _fresh(w, "s:f2")}]))
+    # Node.from_dict with a deserialisation mapper, on an attached leaf that has siblings (and, second form, on the
+    # leaf of a clone): the mapper raises at invocation k -> the half-built branch must be gone again (D48 rollback)
+    def fd_mapper(pick):
+        def fn(w, plan):
+            def mapper(parent, data):
+                plan.tick()
+                return data["data"] if isinstance(data, dict) and "data" in data else data
+            leaves = [n for n in _nodes(w) if not n._children and n._parent is not None and len(n._parent._children) > 1] or \
+                     [n for n in _nodes(w) if not n._children]
+            target = leaves[0] if pick == 0 else leaves[-1]
+            target.from_dict([{"data": _fresh(w, "s:f1"), "children": [{"data": _fresh(w, "s:f2")}, {"data": _fresh(w, "s:f3"),
+                               "children": [{"data": _fresh(w, "s:f2")}]}]},
+                              {"data": _fresh(w, "s:f2")}, {"data": _fresh(w, "s:new"), "data_id": "M1"}], mapper=mapper)
+        return fn
+
+    P.append(("Node.from_dict(mapper) on an attached leaf with siblings", fd_mapper(0)))
+    P.append(("Node.from_dict(mapper) on the last attached leaf", fd_mapper(1)))
+
+    def fd_mapper_calc(w, plan):
+        # mapper AND calc_data_id both count: faults interleave (mapper, calc, mapper, calc, ...)
+        with _Hooked(w, plan):
+            fd_mapper(0)(w, plan)
+
+    P.append(("Node.from_dict(mapper) + calc_data_id on an attached leaf", fd_mapper_calc))
     calc("del tree[data]", lambda w: w.trees[0].__delitem__(_nodes(w)[-1].data))
     calc("Node.move_to", lambda w: _nodes(w)[-1].move_to(w.trees[0], before=0))
     calc("Node.remove(keep_children)", lambda w: _nodes(w)[0].remove(keep_children=True))
@@ -865,6 +889,8 @@ def run_probes(univ, setup, only=None):
                 m = struct_fail(w)
                 if m:
                     fails.append((name, k, f"after the exception at invocation {k}: {m}"))
+                if not readonly and raised is not None and name.startswith("Node.from_dict") and snapshot(w) != snap0:
+                    fails.append((name, k, f"from_dict failed at invocation {k} but left something behind: {snap_diff(snap0, snapshot(w))}"))
                 if readonly and snapshot(w) != snap0:
                     fails.append((name, k, f"read-only operation changed the tree (fault at invocation {k}): {snap_diff(snap0, snapshot(w))}"))
                 if raised is None and p2.n >= k:
